@@ -14,6 +14,7 @@ structure ExitInv (s : St) : Prop where
   finalPhase : s.final = true → (s.phase = .preSwap ∨ s.phase = .draining) ∧ s.quitMark.isSome = true
   finalDrain : s.final = true → s.phase = .draining → ∀ n, s.quitMark = some n → n ≤ s.executed.length + s.batch.length
   done : exited s.phase = true → ∃ n, s.quitMark = some n ∧ n ≤ s.executed.length
+  ret : exited s.phase = true → s.retMark = some s.executed.length
 
 theorem markOf_some {s : St} {n : Nat} (h : s.quitMark = some n) : markOf s = some n := by
   simp [markOf, h]
@@ -28,23 +29,23 @@ theorem markOf_le {s : St} {n : Nat} (hl : ∀ n, s.quitMark = some n → n ≤ 
   | some m => simp [hq] at h; subst h; exact hl _ hq
 
 theorem runTop_exit {s : St} (h : ExitInv s) (ht : taskPhase s.phase = true) : ExitInv (runTop s) := by
-  obtain ⟨h1, h2, h3, h4, h5, h6⟩ := h
+  obtain ⟨h1, h2, h3, h4, h5, h6, h7⟩ := h
   have hx : exited s.phase = false := by cases hp : s.phase <;> simp_all [taskPhase, exited]
   have hae : s.phase ≠ .atExit := by intro hh; simp [hh, taskPhase] at ht
   have grow : ∀ x, ∀ n, s.quitMark = some n → n ≤ (s.appendOrder ++ [x]).length := by
     intro x n hn; have := h2 n hn; simp; omega
   unfold runTop
   split
-  · split <;> exact ⟨h1, h2, h3, h4, h5, h6⟩
-  · split <;> exact ⟨h1, h2, h3, h4, h5, h6⟩
+  · split <;> exact ⟨h1, h2, h3, h4, h5, h6, h7⟩
+  · split <;> exact ⟨h1, h2, h3, h4, h5, h6, h7⟩
   · split
-    · exact ⟨h1, h2, h3, h4, h5, h6⟩
-    · exact ⟨h1, h2, h3, h4, h5, h6⟩
-    · exact ⟨h1, grow _, h3, h4, h5, h6⟩
+    · exact ⟨h1, h2, h3, h4, h5, h6, h7⟩
+    · exact ⟨h1, h2, h3, h4, h5, h6, h7⟩
+    · exact ⟨h1, grow _, h3, h4, h5, h6, h7⟩
     · split
-      · exact ⟨h1, h2, h3, h4, h5, h6⟩
-      · exact ⟨h1, grow _, h3, h4, h5, h6⟩
-    · refine ⟨?_, ?_, ?_, ?_, ?_, ?_⟩
+      · exact ⟨h1, h2, h3, h4, h5, h6, h7⟩
+      · exact ⟨h1, grow _, h3, h4, h5, h6, h7⟩
+    · refine ⟨?_, ?_, ?_, ?_, ?_, ?_, ?_⟩
       · intro _; exact markOf_isSome s
       · intro n hn; exact markOf_le (s := s) h2 hn
       · intro hh; exact absurd hh hae
@@ -54,24 +55,25 @@ theorem runTop_exit {s : St} (h : ExitInv s) (ht : taskPhase s.phase = true) : E
         rw [markOf_some hm] at hn; cases hn
         exact h5 hh hp _ hm
       · intro hh; simp [hx] at hh
-    · exact ⟨h1, h2, h3, h4, h5, h6⟩
-    · exact ⟨h1, h2, h3, h4, h5, h6⟩
+      · intro hh; simp [hx] at hh
+    · exact ⟨h1, h2, h3, h4, h5, h6, h7⟩
+    · exact ⟨h1, h2, h3, h4, h5, h6, h7⟩
 
 theorem stepLoop_exit {s : St} (hf : FifoInv s) (h : ExitInv s) : ExitInv (stepLoop s) := by
   have hr := runTop_exit h
-  obtain ⟨h1, h2, h3, h4, h5, h6⟩ := h
+  obtain ⟨h1, h2, h3, h4, h5, h6, h7⟩ := h
   obtain ⟨f1, f2⟩ := hf
   have := drainSwaps_tie; have := finalDrain_tie
   loop_cases
   all_goals (first
     | exact hr (by simp [*, taskPhase])
-    | (refine ⟨?_, ?_, ?_, ?_, ?_, ?_⟩ <;> simp_all [exited] <;>
+    | (refine ⟨?_, ?_, ?_, ?_, ?_, ?_, ?_⟩ <;> simp_all [exited] <;>
         (first
           | (intro hf n hn; have := h5 hf n hn; omega)
           | (obtain ⟨n, hn⟩ := Option.isSome_iff_exists.mp h4; exact ⟨n, hn, h5 n hn⟩))))
 
 theorem stepOther_exit {s : St} (k : Nat) (h : ExitInv s) : ExitInv (stepOther s k) := by
-  obtain ⟨h1, h2, h3, h4, h5, h6⟩ := h
+  obtain ⟨h1, h2, h3, h4, h5, h6, h7⟩ := h
   have grow : ∀ x, ∀ n, s.quitMark = some n → n ≤ (s.appendOrder ++ [x]).length := by
     intro x n hn; have := h2 n hn; simp; omega
   have mk := markOf_isSome s
@@ -86,7 +88,7 @@ theorem stepOther_exit {s : St} (k : Nat) (h : ExitInv s) : ExitInv (stepOther s
     obtain ⟨n, hn, hle⟩ := h6 hh
     exact ⟨n, markOf_some hn, hle⟩
   other_cases
-  all_goals (refine ⟨?_, ?_, ?_, ?_, ?_, ?_⟩ <;> simp_all [exited])
+  all_goals (refine ⟨?_, ?_, ?_, ?_, ?_, ?_, ?_⟩ <;> simp_all [exited])
 
 theorem step_exit {s : St} (k : Nat) (h : FifoInv s ∧ ExitInv s) : FifoInv (step s k) ∧ ExitInv (step s k) := by
   refine ⟨step_fifo k h.1, ?_⟩
@@ -98,6 +100,6 @@ theorem run_exit {s : St} (sched : List Nat) (hf : FifoInv s) (h : ExitInv s) : 
   (run_invariant (P := fun s => FifoInv s ∧ ExitInv s) (fun _ k h => step_exit k h) ⟨hf, h⟩ sched).2
 
 theorem init_exit (elt wl : Bool) (tbl) (pre) (progs) : ExitInv (init elt wl tbl pre progs) := by
-  cases elt <;> (refine ⟨?_, ?_, ?_, ?_, ?_, ?_⟩ <;> simp [init, exited])
+  cases elt <;> (refine ⟨?_, ?_, ?_, ?_, ?_, ?_, ?_⟩ <;> simp [init, exited])
 
 end MuduoVerif.Loop
